@@ -129,6 +129,7 @@ class World(object):
         self.nontrivial_compare = False
         self.warnings = collections.Counter()
         self.group = None      # observations that must agree across the runs of one group (see Profile.group_of)
+        self._known = None
 
     def __enter__(self):
         from . import seams
@@ -175,6 +176,19 @@ class World(object):
 
     def state(self, *key):
         self.states.add(key)
+
+    def report(self, violation):
+        """Raise the violation - unless known_findings.json lists exactly this signature as a known finding, in which case it is
+        counted (the check prints its KNOWN-FINDING line) and the run goes on, so that a listed finding does not end the
+        run and hide whatever else the remaining operations would show.  Only for oracles whose operations are independent
+        of one another (the profile decides by calling this instead of raising)."""
+        if self._known is None:
+            self._known = load_known()
+        if (self.profile.pid, violation.signature) in self._known:
+            self.stats['known:' + violation.signature] += 1
+            self.log(known_finding=violation.signature)
+            return
+        raise violation
 
     def changed(self):
         self.nontrivial_change = True
